@@ -120,7 +120,7 @@ pub fn subs() -> Vec<Sub> {
 }
 
 pub fn run(env: &mut Env) -> RunResult {
-    let n = env.tier.sel(5_000, 60_000);
+    let n = env.tier.sel(5_000, 180_000);
     env.run_tapes(SUB_V3, n, 140)?;
     env.run_tapes(SUB_V5, n * 2, 240)?;
     env.run_tapes(SUB_T3, n / 2, 140)?;
